@@ -101,20 +101,30 @@ inline std::string showText(const std::string& s) {
 template <class T> constexpr bool canPrintTp = std::is_signed_v<typename T::rep>;
 template <class T> constexpr bool canPrintDur = !(std::is_unsigned_v<typename T::rep> && std::ratio_less_v<typename T::period, std::ratio<1>>);
 
+// The text is handed over as a VIEW into a larger buffer that continues with "T1S" (not NUL-terminated): a parser that looks past the
+// end of its view changes its answer and disagrees with the model.
+template <class TOut, class TStr>
+TOut parseView(const std::vector<uint64_t>& u) {
+	TStr s = toStr<TStr>(u);
+	const size_t n = s.size();
+	for (char c : { 'T', '1', 'S' }) s.push_back(static_cast<typename TStr::value_type>(c));
+	return C::To<TOut>(std::basic_string_view<typename TStr::value_type>(s.data(), n));
+}
+
 template <class TOut>
 TOut parseWith(const std::string& w, const std::string& units) {
 	const auto u = parseUnits(units);
 	if (w == "8") {
 		for (auto x : u) if (x > 0xFF) throw BadOp("unit");
-		return C::To<TOut>(toStr<std::string>(u));
+		return parseView<TOut, std::string>(u);
 	}
 	if (w == "16") {
 		for (auto x : u) if (x > 0xFFFF) throw BadOp("unit");
-		return C::To<TOut>(toStr<std::u16string>(u));
+		return parseView<TOut, std::u16string>(u);
 	}
 	if (w == "32") {
 		for (auto x : u) if (x > 0xFFFFFFFFull) throw BadOp("unit");
-		return C::To<TOut>(toStr<std::u32string>(u));
+		return parseView<TOut, std::u32string>(u);
 	}
 	throw BadOp("w");
 }
